@@ -325,6 +325,8 @@ func runC19(p *P, r *R) {
 	// R19.6 what Write accepted is what Read returns, also on the socket-fallback path: the payload handed to the stream
 	// is a copy, never a window of the connection's reused read buffer (shared with C06 R06.5 / C18 R18.6)
 	noEscapeOfEventBuffer(p, r, "R19.6")
+	// R19.7 no Write is delivered twice: consumed event bytes never re-enter the receive window (shared with C18 R18.4)
+	c18Window(p, r, "R19.7")
 	// R19.5 deadlines behave like a socket's: the per-stream read/write timers behind SetReadDeadline / SetDeadline are
 	// armed before each wait and a fired tick never survives into the next wait (shared with C11 R11.7 / R11.8)
 	borrow(p, r, "C11", runC11, map[string]string{"R11.7": "R19.5", "R11.8": "R19.5"}, func(o Ob) bool { return constructHas(o, "(*Stream)") })
